@@ -13,7 +13,7 @@ META = {
     },
     "outside": "shapes the each-choice generator does not produce; the Canonical facade on symbolic bytes "
                "(it insists on a real bytes object, so it is run on the concrete shapes only)",
-    "wall_budget_s": {"quick": 270, "thorough": 1500},
+    "wall_budget_s": {"quick": 270, "thorough": 840},
 }
 CORE = ("Startup", "GetRandom", "CreatePrimary", "GetCapability", "NV_Read", "PCR_Read", "StartAuthSession", "Commit")
 
